@@ -335,7 +335,7 @@ def Out (W : World) (lc : Nat × Nat) (d : Nat) (pos endpc : Nat) (L T : List VM
         ∧ envSig L' st'.env ∧ L'.length = L.length
   | .sig (.err k) st' => ∃ s1 s2, Steps W.P (W.cfg pos L T out0) s1 ∧ VM.step W.P s1 = .error (encErr k) s2
         ∧ s1.out = st'.out
-  | .sig (.ret _) _ => True
+  | .sig (.ret _) _ => False    -- F0 has no `return`: never produced
   | .timeout => True
   | .stuck _ => True
 
